@@ -571,6 +571,7 @@ ssize_t write(int fd, const void* buf, size_t n) {
     return real(fd, buf, n);
   }
   long r = (long)n;
+  g.aux = -1;
   if (g.on_write) {
     Bypass b;
     r = g.on_write(fi.path, data);
@@ -580,6 +581,7 @@ ssize_t write(int fd, const void* buf, size_t n) {
   e.p = fi.path;
   e.s = data;
   e.a = fi.dir_ino;
+  e.b = g.aux;
   e.ret = r;
   e.err = r < 0 ? (int)-r : 0;
   g.log(e);
